@@ -34,7 +34,7 @@ type c12Case struct {
 	TokClient  string `json:"tok_client"`
 	Secret     string `json:"secret"`    // right | wrong | absent | other | empty
 	Verifier   string `json:"verifier"`  // right | wrong | absent | challenge-itself
-	CredsIn    string `json:"creds_in"`  // header | form | header-escaped
+	CredsIn    string `json:"creds_in"`  // header | form | header-escaped | header+form-id-of-code-client
 	Redirect   string `json:"redirect"`  // same | different | case | trailing
 	CodeKind   string `json:"code_kind"` // fresh | expired | tampered | resigned-foreign | access-token | id-token | session-cookie | other-client-code
 	Signer     string `json:"signer"`
@@ -73,7 +73,7 @@ func c12Gen(t *rapid.T) c12Case {
 	if c12Secrets[c.AuthClient] == "" {
 		c.Secret, c.Verifier = "absent", "right"
 	}
-	c.CredsIn = rapid.SampledFrom([]string{"header", "form", "header-escaped"}).Draw(t, "credsIn")
+	c.CredsIn = rapid.SampledFrom([]string{"header", "form", "header-escaped", "header+form-id-of-code-client"}).Draw(t, "credsIn")
 	nPerturb := rapid.SampledFrom([]int{0, 1, 1, 1, 2, 3}).Draw(t, "nPerturb")
 	for i := 0; i < nPerturb; i++ {
 		switch rapid.IntRange(0, 4).Draw(t, "axis") {
@@ -277,6 +277,12 @@ func c12Check(c c12Case) *vResult {
 	case "header-escaped":
 		req = vFormRequest("POST", idpOpenIDCTokenPath, form)
 		req.SetBasicAuth(url.QueryEscape(tokClientID), url.QueryEscape(secret))
+	case "header+form-id-of-code-client":
+		// the caller proves who it is in the Authorization header and, in the
+		// form, merely NAMES the client the code was issued to
+		form.Set("client_id", c12ClientID(codeClient))
+		req = vFormRequest("POST", idpOpenIDCTokenPath, form)
+		req.SetBasicAuth(tokClientID, secret)
 	default:
 		req = vFormRequest("POST", idpOpenIDCTokenPath, form)
 		req.SetBasicAuth(tokClientID, secret)
